@@ -36,8 +36,10 @@ const U: [&str; 49] = [
 const CORE: [usize; 10] = [6, 7, 12, 13, 16, 17, 21, 22, 3, 40];
 
 /// records for the selection configurations: member `a` (and `b`) present / null / absent
-const RECS: [&str; 10] = [
+const RECS: [&str; 11] = [
     "{\"a\":1}", "{\"a\":1.0,\"b\":2}", "{\"a\":null}", "{}", "{\"b\":1}", "{\"a\":\"x\",\"b\":1.0}", "{\"b\":null}", "{\"a\":[1],\"b\":2.0}", "{\"a\":[1.0]}", "{\"a\":1,\"b\":null}",
+    // a row whose selected values spell the names of their own columns
+    "{\"a\":\"a\",\"b\":\"b\"}",
 ];
 
 struct EqTable {
@@ -123,10 +125,11 @@ struct Sel {
     args: &'static [&'static str],
     members: &'static [&'static str],
 }
-const SELS: [Sel; 4] = [
+const SELS: [Sel; 5] = [
     Sel { name: "no-selection", args: &[], members: &[] },
     Sel { name: "select-a", args: &["--select=.a=a"], members: &["a"] },
     Sel { name: "select-a-b", args: &["--select=.a=a", "--select=.b=b"], members: &["a", "b"] },
+    Sel { name: "select-a-b-unnamed", args: &["--select=.a", "--select=.b"], members: &["a", "b"] },
     // two selections under ONE name: rows are still compared on their selected values, position by position
     Sel { name: "select-a-b-same-name", args: &["--select=.a=x", "--select=.b=x"], members: &["a", "b"] },
 ];
@@ -232,7 +235,7 @@ fn check_stream(ctx: &mut Ctx, uni: &Universe, sel: &Sel, texts: &[&str], sig_ex
 fn run(ctx: &mut Ctx) {
     // universe for the equality table: the value texts plus every member value of the records
     let mut texts: Vec<String> = U.iter().map(|s| s.to_string()).collect();
-    for extra in ["2", "2.0", "\"x\"", "[1.0]"] {
+    for extra in ["2", "2.0", "\"x\"", "[1.0]", "\"b\""] {
         texts.push(extra.to_string());
     }
     let Some(uni) = Universe::build(ctx, texts) else { return };
